@@ -37,6 +37,7 @@ type purgeCase struct {
 	Chunk       int      `json:"chunk"`
 	Crash       int      `json:"crash"`
 	BuildFault  string   `json:"buildfault"`
+	ResumeFault string   `json:"resumefault"`
 	Between     []string `json:"between"`
 	DeleteFault string   `json:"deletefault"`
 	Visible     []string `json:"visible"`
@@ -242,6 +243,16 @@ func purgeReplay(args []string) error {
 				ctl.CrashStore, ctl.CrashAt, ctl.Before = "meta", 2*crashAfter+2, true
 			}
 			switch fault {
+			case "scanlist":
+				// one transient failure of a listing of bundle metadata during the scan
+				fired := false
+				ctl.FaultFn = func(storeName, op, key string, nth int) bool {
+					if !fired && storeName == "meta" && op == "list" && strings.HasPrefix(key, "bundles/") {
+						fired = true
+						return true
+					}
+					return false
+				}
 			case "chunkput1", "chunkput2":
 				ctl.FaultStore, ctl.FaultOp, ctl.FaultBytes = "meta", "put", 1<<20
 				ctl.FaultAt = 1
@@ -272,7 +283,17 @@ func purgeReplay(args []string) error {
 				success = false
 			} else {
 				r.Steps++
-				if err := build(true, -1, "none"); err != nil {
+				rf := c.ResumeFault
+				if rf == "" {
+					rf = "none"
+				}
+				err := build(true, -1, rf)
+				if err != nil && rf != "none" {
+					// the resumed build reported the transient failure: the operator resumes again
+					r.Steps++
+					err = build(true, -1, "none")
+				}
+				if err != nil {
 					success = false
 				}
 			}
